@@ -79,6 +79,33 @@ func libCall(fn string, in []byte, text string, flags uint32) (outcome string) {
 			return "true"
 		}
 		return "false"
+	case "VerifyTxScript.witness":
+		// in = <number of witness items> { <1 byte length> <item> } <pkScript>
+		if len(in) < 1 {
+			return "bad-case"
+		}
+		t := &reftx.Tx{Version: 2, In: []reftx.In{{Prev: [32]byte{0x11, 0x22}, Vout: 0, Sequence: 0xffffffff}}, Out: []reftx.Out{{Value: 1000, Script: []byte{0x51}}}}
+		p := 1
+		for k := 0; k < int(in[0]); k++ {
+			if p >= len(in) || p+1+int(in[p]) > len(in) {
+				return "bad-case"
+			}
+			t.In[0].Witness = append(t.In[0].Witness, in[p+1:p+1+int(in[p])])
+			p += 1 + int(in[p])
+		}
+		pk := in[p:]
+		raw := t.Serialize(true)
+		tx, n := btc.NewTx(raw)
+		if tx == nil || n != len(raw) {
+			return "tx-refused"
+		}
+		tx.SetHash(raw)
+		tx.AllocVerVars()
+		tx.Spent_outputs = []*btc.TxOut{{Value: 1000, Pk_script: pk}}
+		if script.VerifyTxScript(pk, &script.SigChecker{Amount: 1000, Idx: 0, Tx: tx}, flags) {
+			return "true"
+		}
+		return "false"
 	case "Signature.ParseBytes":
 		var s secp256k1.Signature
 		n := s.ParseBytes(in)
@@ -338,6 +365,58 @@ func (g *libGen) scripts(thorough bool) {
 	}
 }
 
+// witnessStacks: taproot / segwit v0 spends whose witness items have every length
+// around the structural limits (control block 33+32k, 32-byte programs, annex), as a
+// node sees them in a tx or block message. VerifyTxScript runs in goroutines without
+// recover(): a panic here ends the process.
+func (g *libGen) witnessStacks() {
+	enc := func(pk []byte, items ...[]byte) string {
+		b := []byte{byte(len(items))}
+		for _, it := range items {
+			b = append(append(b, byte(len(it))), it...)
+		}
+		return hex.EncodeToString(append(b, pk...))
+	}
+	fill := func(n int, first byte) []byte {
+		b := make([]byte, n)
+		for i := range b {
+			b[i] = 0x79
+		}
+		if n > 0 {
+			b[0] = first
+		}
+		return b
+	}
+	p2tr := append([]byte{0x51, 0x20}, fill(32, 0x79)...)
+	p2wsh := append([]byte{0x00, 0x20}, fill(32, 0x79)...)
+	p2wpkh := append([]byte{0x00, 0x14}, fill(20, 0x79)...)
+	v2 := append([]byte{0x52, 0x20}, fill(32, 0x79)...)
+	for clen := 0; clen <= 98; clen++ {
+		for _, first := range []byte{0xc0, 0xc1, 0x50, 0x00} {
+			c := fill(clen, first)
+			g.add("VerifyTxScript.witness", "taproot-control", consensusFlags, false, enc(p2tr, []byte{0x51}, c))
+			g.add("VerifyTxScript.witness", "taproot-control", consensusFlags, false, enc(p2tr, []byte{0x51}, c, []byte{0x50, 0x01}))
+			g.add("VerifyTxScript.witness", "taproot-control", consensusFlags, false, enc(p2tr, c))
+			g.add("VerifyTxScript.witness", "taproot-control", consensusFlags, false, enc(p2tr, c, []byte{0x50}))
+			g.add("VerifyTxScript.witness", "taproot-control", consensusFlags, false, enc(p2tr, nil, c))
+			g.add("VerifyTxScript.witness", "v0-items", consensusFlags, false, enc(p2wsh, c))
+			g.add("VerifyTxScript.witness", "v0-items", consensusFlags, false, enc(p2wsh, []byte{0x51}, c))
+			g.add("VerifyTxScript.witness", "v0-items", consensusFlags, false, enc(p2wpkh, c, fill(33, 0x02)))
+			g.add("VerifyTxScript.witness", "v0-items", consensusFlags, false, enc(p2wpkh, fill(71, 0x30), c))
+			g.add("VerifyTxScript.witness", "future-version", consensusFlags, false, enc(v2, c))
+		}
+	}
+	for n := 0; n <= 4; n++ {
+		var items [][]byte
+		for k := 0; k < n; k++ {
+			items = append(items, nil)
+		}
+		for _, pk := range [][]byte{p2tr, p2wsh, p2wpkh, v2} {
+			g.add("VerifyTxScript.witness", "empty-items", consensusFlags, false, enc(pk, items...))
+		}
+	}
+}
+
 func (g *libGen) addresses() {
 	tm := []string{
 		"1BvBMSEYstWetqTFn5Au4m4GFg7xJaNVN2", "3J98t1WpEZ73CNmQviecrnyiWrnqRhWNLy",
@@ -399,6 +478,7 @@ func libCases(w *world, next func() int, thorough bool) []*Case {
 	g.bytesFamilies("XY.ParsePubkey", "uncompressed", pk65, nil, false, false)
 	g.lengths("XY.ParsePubkey", 70)
 	g.addresses()
+	g.witnessStacks()
 	g.scripts(thorough)
 	return g.cases
 }
